@@ -79,6 +79,26 @@ def strategy(tier):
     return _cli_case(tier)
 
 
+def _local_extra():
+    from vlib import realpool
+
+    return [{"name": "local_real", "strategy": lambda tier: realpool.real_case(5 if tier == "quick" else 8),
+             "examples": {"quick": 3, "thorough": 48}, "wall_s": 240}]
+
+
+EXTRA_STRATEGIES = _local_extra()
+CASE_TIMEOUT_S = 200
+
+
+def run_local(case):
+    """Local backend, real worker pool: a running target is not submitted again by a later invocation."""
+    from vlib import realpool
+
+    viols, labels, info = realpool.run_real(case)
+    mine = [Violation(dict(sig, backend="local"), msg) for p, sig, msg in viols if p == "C02"]
+    return CaseResult(mine, bool(case.get("second_wave")), sorted(set(labels) | {"backend-local", "real-processes"}))
+
+
 def _labels(R, vec, requested):
     labels = set()
     cone = R.cone(requested)
@@ -189,4 +209,6 @@ def run_cli(case):
 
 
 def run_case(case):
+    if case["kind"] == "real":
+        return run_local(case)
     return run_api(case) if case["kind"] == "api" else run_cli(case)
